@@ -108,6 +108,9 @@ func (e *Exec) callVal(s *State, cc *ssa.CallCommon, args []Val, setRes func(*St
 	sig := cc.Signature()
 	rt := resultType(sig)
 	unknown := func(why string, havoc bool) bool {
+		for _, a := range args {
+			e.escape(s, a)
+		}
 		if !havoc && deterministicPure[why] {
 			// a pure function of its (scalar) arguments: an uninterpreted function, so equal arguments give equal results
 			var terms, sorts []string
@@ -179,6 +182,9 @@ func (e *Exec) callVal(s *State, cc *ssa.CallCommon, args []Val, setRes func(*St
 		e.assertAts(s, cc.Method.FullName(), args, cc)
 		if m, ok := extModels[name]; ok {
 			e.note("model(assumed)", name)
+			for _, a := range args {
+				e.escape(s, a)
+			}
 			m(e, s, args, cc, setRes, rest)
 			return true
 		}
@@ -248,6 +254,9 @@ func (e *Exec) callVal(s *State, cc *ssa.CallCommon, args []Val, setRes func(*St
 	e.assertAts(s, name, args, cc)
 	if m, ok := extModels[name]; ok {
 		e.note("model(assumed)", name)
+		for _, a := range args {
+			e.escape(s, a)
+		}
 		m(e, s, args, cc, setRes, rest)
 		return true
 	}
@@ -272,7 +281,13 @@ func (e *Exec) callVal(s *State, cc *ssa.CallCommon, args []Val, setRes func(*St
 		return unknown(name, false)
 	}
 	// ---- inline ----
-	if closure != nil || forceInline || e.inlinable(callee) {
+	autoInline := e.inlinable(callee)
+	if autoInline && e.con != nil && e.con.AbstractCalls && len(e.frames) == 0 && funcPkgPath(callee) != funcPkgPath(e.fn) {
+		// in a function verified with abstracted callees, bodies of other packages are not pulled in (their safety
+		// obligations would need those packages' representation invariants); same-package helpers still are
+		autoInline = false
+	}
+	if closure != nil || forceInline || autoInline {
 		if len(e.frames) >= 6 {
 			if e.con != nil && e.con.AbstractCalls {
 				return unknown(name, true)
@@ -810,6 +825,9 @@ func bindResults(env *SpecEnv, sig *types.Signature, res Val) {
 }
 
 func (e *Exec) applyContract(s *State, con *Contract, args []Val, setRes func(*State, Val)) {
+	for _, a := range args {
+		e.escape(s, a)
+	}
 	e.note("contract", con.Key)
 	e.usedContracts[con.Key] = true
 	pre := s.clone()
@@ -859,6 +877,9 @@ func (e *Exec) applyContract(s *State, con *Contract, args []Val, setRes func(*S
 }
 
 func (e *Exec) applyCallback(s *State, cb *CallbackSpec, sig *types.Signature, args []Val, setRes func(*State, Val)) {
+	for _, a := range args {
+		e.escape(s, a)
+	}
 	e.note("callback-contract", cb.Param)
 	pre := s.clone()
 	mk := func(cur, old *State) *SpecEnv {
